@@ -90,7 +90,12 @@ pub fn scenario(g: &mut G, ctx: &RunCtx) -> RunReport {
         _ => b"Not: a header".to_vec(),
     };
     let version = *g.pick(&["HTTP/1.1", "HTTP/1.0", "HTTP/2", "ICY", "http/1.1", "HTTP/1.1"]);
-    let max_headers = match g.below(6) {
+    let max_headers = match g.below(7) {
+        // "no limit" as callers write it; the head itself stays ordinary
+        6 => {
+            g.probe("max-headers-raised-far-above-default");
+            Some(*g.pick(&[1_000usize, 24_577, 32_768, 100_000, usize::MAX / 2, usize::MAX]))
+        }
         0 => Some(0usize),
         1 => Some(1),
         2 => Some(g.range(2, 8) as usize),
@@ -100,6 +105,7 @@ pub fn scenario(g: &mut G, ctx: &RunCtx) -> RunReport {
     let limit = max_headers.unwrap_or(100);
     // number of fields relative to the limit
     let nfields = match g.below(6) {
+        _ if limit >= 1_000 => g.usize_below(41),
         0 => limit,
         1 => limit + 1,
         2 => limit.saturating_sub(1),
@@ -109,7 +115,7 @@ pub fn scenario(g: &mut G, ctx: &RunCtx) -> RunReport {
     if nfields == limit {
         g.probe("exactly-at-max-headers");
     }
-    if nfields == limit + 1 {
+    if limit < 1_000 && nfields == limit + 1 {
         g.probe("one-over-max-headers");
     }
     let big = g.chance(1, 6);
